@@ -20,7 +20,7 @@ RULE = ("cases = groups of independent ops, each op one complete connection: `re
         "valid requests (no body, Content-Length, chunked, keep-alive pairs, HTTP/1.0, OPTIONS first) cut at EVERY byte "
         "position through srv/req/tcp for the dispatch clause; every percent escape %00-%ff in both letter cases; query strings with "
         "escaped & = + inside keys and values; Content-Length that is not a length / together with chunked, each followed by a "
-        "pipelined request; folded header lines, Content-Length with leading zeros, Transfer-Encoding spellings; `fmap` = GET of every short token path on the file-server fixture (status and length); non-trivial = distinct case with a non-empty stream")
+        "pipelined request; folded header lines, Content-Length with leading zeros, Transfer-Encoding spellings; `rng` = GET of a fixture file (36, 4, 0 bytes) with a generated Range value (number pairs around the size, 2^31, 2^32+5, 2^63, 18/19/20 digits, signs, blanks, one/three/four parts, suffix forms, other units, commas, NUL, random bytes without CR/LF); `upg` = a request head with Upgrade: websocket (or near misses, cut or mutated heads, a Content-Length body) and 0-200 first-frame bytes in ONE segment to an HttpServer with a linked WebSocketServer; `fmap` = GET of every short token path on the file-server fixture (status and length); non-trivial = distinct case with a non-empty stream")
 
 TRUSTED = ["tools/props/c09.py _frame(): lenient RFC 7230 framing parser used by the dispatch clause (no opinion where framing is a matter of interpretation: NUL in the head, folded or duplicate Content-Length/Transfer-Encoding, non-decimal lengths, chunk extensions/trailers)",
            "harness/c09.cpp watchdog (12 s kill) and SLOW flag (>5 s wall or >1.5 s CPU per connection) for the 'terminates promptly' clause",
@@ -34,6 +34,7 @@ ASSUMPTIONS = [
     "myatoi/myatol overflow wraps modulo 2^32 / 2^64 (what the compiled code does; formally undefined in C++)",
     "String::toLowerCase is modelled for ASCII only (Connection header values with bytes >= 0x80 are not generated for srv/tcp)",
     "Map<String,String> keeps keys sorted by strcmp and finds by strcmp-equality (C02 proves the binary search)",
+    "HttpResponse::putFile(path, begin, end) on a file of n bytes announces what AslModel.HttpFrame.rangeOf n begin end says (C10's model, tied there by C10's K and here by `rng`); String::split(sep) finds separators by strstr, i.e. up to the first NUL (splitC)",
 ]
 
 TECHNIQUE = "Lean 4 theorems over an executable transcription of the reader (fuel-indexed loops, checked indices) + differential correspondence check through socketpairs / loopback TCP"
@@ -66,12 +67,22 @@ LEVEL_TEXT = ("Proved in Lean 4 about the model that the driver runs, for ALL by
               "parser over every req/srv/tcp stream of every run. The model is tied to the code by the correspondence check on all "
               "observable fields, socket state, bytes written back, bytes left unread (req: after one read; srv: where the reader itself closed the connection - on the other exits "
               "closeBehind drops them, there the bytes unread at each dispatch, at=, are compared and judged against the framed end by the framing parser; tcp: not observed), and (fmap) status/length of the static file "
-              "answer for every short token path on a fixture tree.")
+              "answer for every short token path on a fixture tree. RANGE: (range_parser_safe, range_of_any_stream, range_args_in_bounds) for every "
+              "Range value (any bytes) and file size n the parser of HttpServer::serve ends, reads parts[0]/parts[1] of the split only where they exist "
+              "(checked array access partAt?), and answers whole file, unsatisfiable, or begin <= end < n - through the same rangeOf as C10's model; tied by "
+              "the op `rng` (status, Content-Range, Content-Length, body length of the real answer on files of 36, 4 and 0 bytes). UPGRADE: "
+              "(upgrade_handoff_exact, upgrade_handoff_consumes_prefix) a well-formed request with Upgrade: websocket followed by ANY bytes (the first frame, whole, "
+              "in part, or none) is handed to the WebSocket server with exactly those bytes unread - the HTTP reader consumed the request and nothing of the frame; "
+              "tied by the op `upg` (head + frame bytes written in one segment, a WebSocketServer subclass linked to the HttpServer reads what is left on the "
+              "descriptor at the hand-off). ONE DECODING: (path_decoded_once, decode_inverts_one_escape) a path text sent with its `%` escaped as `%25` arrives as "
+              "that text (`%252e%252e` is `%2e%2e`, never `..`), for every path; tied by tg/req/dec as before.")
 
 LEVEL_NOTE = ("Trusted: Lean kernel, harness + watchdog, the python framing parser, libc/OS as listed in assumptions. The query theorems "
-              "import C15's model/proofs (AslModel.Codec incl. the regenerated Gen/TablesGen, AslProofs.Query*). Not modelled and not "
-              "exercised: the Upgrade: websocket hand-off in HttpServer::serve (HttpServer.cpp ~60-65, _wsserver is never linked in the "
-              "harness; belongs to C11), CORS headers, socket timeouts/select and partial arrival (EOF only). Transfer-Encoding is chunked when its last "
+              "import C15's model/proofs (AslModel.Codec incl. the regenerated Gen/TablesGen, AslProofs.Query*). The Upgrade: websocket hand-off "
+              "(HttpServer.cpp ~60-65) is modelled up to the call of WebSocketServer::process (upgradeHandOff: which headers and which unread bytes it receives; "
+              "what process does with them is C11's); the request head arriving in several TCP segments is runtime behaviour of waitInput/select and not in the model "
+              "(all bytes have arrived, EOF after them) - the frame part may be any prefix of a frame, including nothing. Not modelled and not exercised: "
+              "CORS headers, socket timeouts/select and partial arrival (EOF only). Transfer-Encoding is chunked when its last "
               "coding is `chunked`, ASCII case-insensitively (fix 7dcf721; String::toLowerCase is UTF-8 aware, the model ASCII: values "
               "with bytes >= 0x80 are not generated); a request with a Transfer-Encoding whose last coding is not chunked (gzip, `chunked, gzip`, xchunked, empty) is "
               "dropped, the connection closed (4dff910, theorem dispatch_requires_framed_transfer_encoding); gzip/deflate codings before chunked are not decoded. "
@@ -82,7 +93,9 @@ LEVEL_NOTE = ("Trusted: Lean kernel, harness + watchdog, the python framing pars
               "dropped by Url::parseQuery by design (outside_findings.txt). Chunk framing is validated (4dbedbe, d0ace7d): size lines are 1-8 hex digits (<= 0x7fffffff) + blanks/;ext, each chunk must "
               "end in CRLF, trailer fields are not supported (such a request is dropped); a size line with an extension may end in a bare LF (`5;x LF` is taken, `5 LF` is refused: "
               "the framing oracle has no opinion on bare-LF size lines, RFC 7230 3.5; outside_findings.txt). "
-              "Range/If-Modified-Since handling of the file server is covered by the safety oracle of the `file` op only (no byte "
+              "The Range parser is modelled (AslModel/HttpRange.lean: rangeAnswer; putFile's outcome is C10's rangeOf, imported, not copied) and checked by `rng` on "
+              "NUL-free and NUL-bearing values without CR/LF; bytes actually sent for a 206 are C10's (fileSlice), here only their number is compared. "
+              "If-Modified-Since handling of the file server is covered by the safety oracle of the `file` op only (no byte "
               "from outside the root, legal status codes, ASan); plain GET mapping is model-checked by `fmap`. Partial: the header "
               "hypotheses of the faithful-read theorems are stated on hdrDic (the fold), the sorted-map lemma `other keys unaffected` "
               "is not proved here; String::replace/contains are modelled directly as leftmost removal / scan for `..` (tied by K on "
